@@ -44,12 +44,12 @@ def scoresStr (l : List Score) : String :=
 
 def errStr : ErrKind → String
   | .none => "none" | .noExist => "noexist" | .authFailed => "auth" | .notAllowed => "notallowed"
-  | .classifyClient => "cc" | .classifyVisitor => "cv"
+  | .classifyClient => "cc" | .classifyVisitor => "cv" | .notifyTimeout => "notifytimeout"
 
 def errOf (s : String) : Option ErrKind :=
   if s = "none" then some .none else if s = "noexist" then some .noExist else if s = "auth" then some .authFailed
   else if s = "notallowed" then some .notAllowed else if s = "cc" then some .classifyClient
-  else if s = "cv" then some .classifyVisitor else none
+  else if s = "cv" then some .classifyVisitor else if s = "notifytimeout" then some .notifyTimeout else none
 
 def portsStr (l : List (Int × Int)) : String :=
   if l.isEmpty then "-" else "+".intercalate (l.map (fun r => s!"{r.1}:{r.2}"))
@@ -171,6 +171,7 @@ def settleOne (st : St) (id : Nat) : St :=
   | some s =>
     match s.phase with
     | .waiting => st.tryApp (.timeout sid)
+    | .notifying _ => st.tryApp (.notifyTimeout sid)   -- 8d80cd3: the send is bounded by NatHoleTimeout
     | .responding _ _ _ _ => (st.tryApp (.sendV sid)).tryApp (.sendC sid)
     | _ => st
 
@@ -178,6 +179,14 @@ def anyOutOfRange (l : List Str) : Bool :=
   l.any (fun a => match splitHostPort a with
     | some (_, p) => (match atoi p with | some n => decide (n < 1 ∨ n > 65535) | none => false)
     | none => false)
+
+/-- the last address carries a port near the int64 limits: Go's arithmetic in getRangePorts wraps -/
+def hugePort (l : List Str) : Bool :=
+  match l.getLast? with
+  | some a => (match splitHostPort a with
+      | some (_, p) => (match atoi p with | some n => decide (n < -(2 ^ 40) ∨ n > 2 ^ 40) | none => false)
+      | none => false)
+  | none => false
 
 def lastOutOfRange (l : List Str) : Bool :=
   match l.getLast? with
@@ -202,6 +211,8 @@ def judge (st : St) (id : Nat) (impl : String) (P : Str → VMsg → CMsg → Re
       if pending then none else
       match v, c, i.cm with
       | [], [], _ => some true                     -- timed out / never answered: nobody is told anything
+      | [rv], [], none =>                          -- 8d80cd3: the notify send timed out, the visitor is told
+        some (rv.error == .notifyTimeout && rv.sid == [] && rv.role == .none && rv.candidatePorts == [])
       | [rv], [rc], some cm => some (P (sidOf id) i.vm cm rv rc)
       | _, _, _ => some false                      -- not exactly one response per party
   | _, _ => none
@@ -247,9 +258,13 @@ def step (st : St) (tok : List String) (impl : String) : St × Verdict :=
     match unlist a, d.toInt?, n.toNat? with
     | some a, some d, some n =>
       if (tag = "oor") ≠ lastOutOfRange a then (st, .bad "range tag") else
+      if hugePort a then (st, .skip "int64 wrap-around (unreachable since FIX-PORT; model uses unbounded Int)") else
       let m := getRangePorts a d n
       let ms := if m.isEmpty then "nil" else portsStr m
-      let prop := if impl = "nil" then some true else (portsOf impl).map (fun l => l.all C20.rangeOk)
+      -- out-of-range ports never reach getRangePorts any more (f51e354: classification rejects them):
+      -- for those the predicate does not speak, the result is only compared with the model
+      let prop := if tag = "oor" then none
+        else if impl = "nil" then some true else (portsOf impl).map (fun l => l.all C20.rangeOk)
       (st, verdictOf ms impl prop)
     | _, _, _ => (st, .bad "range")
   | ["rec", k, cf, vf] =>
@@ -382,9 +397,8 @@ def step (st : St) (tok : List String) (impl : String) : St × Verdict :=
         (idsOf (impl.drop 5).toString).map (fun l => l.all (fun id =>
           match aget st'.C.sessions (sidOf id) with
           | some s => (match s.phase with
-              | .sleeping => true
-              | .notifying _ => true          -- dead-channel ones are listed by `stuck`, not here
-              | _ => false)
+              | .sleeping => true              -- completed, inside its report window
+              | _ => false)                    -- every other phase is bounded by NatHoleTimeout / the 1 s send delay
           | none => false))
       else none
     (st', verdictOf ms impl prop)
